@@ -1130,6 +1130,7 @@ func runC04(c *core.Ctx) {
 		}
 	}
 	c04Growth(c, sdl, strats)
+	c04RefusedGrowth(c, sdl, strats)
 	c.R.Bound = "complete product (9 bases x 7 wrappers x value menu x deliveries x 3 strategies); input type extended by a later load (3 extensions x cold / warm root x 4 deliveries x 3 strategies)"
 }
 
@@ -1282,4 +1283,115 @@ func deepCopyVars(v map[string]interface{}) map[string]interface{} {
 	}
 	m, _ := deepCopy(v).(map[string]interface{})
 	return m
+}
+
+// c04RefusedGrowth: a later load that extends the enum E and the input type I and is then REFUSED (a failure behind the extend
+// blocks) declares nothing: values and fields it would have added are still undeclared, and no default it would have added is
+// filled in - literal, JSON variable and variable default, on a cold and on a warm root.
+func c04RefusedGrowth(c *core.Ctx, sdl string, strats []world.Strategy) {
+	bi, ei := -1, -1
+	for i, b := range c04Bases {
+		switch b {
+		case "I":
+			bi = i
+		case "E":
+			ei = i
+		}
+	}
+	refused := []struct{ name, sdl string }{
+		{"fails-in-a-later-extend", "extend enum E { PURPLE }\nextend input I { extra: Int = 7 deep: Boolean = true }\nextend type Nowhere { a: Int }\n"},
+		{"fails-validation", "extend enum E { PURPLE }\nextend input I { extra: Int = 7 deep: Boolean = true }\ntype __Reserved { a: Int }\n"},
+		{"fails-in-the-same-kind", "extend input I { extra: Int = 7 deep: Boolean = true }\nextend enum E { PURPLE }\nextend enum E { RED }\nextend input I { req: Int }\n"},
+	}
+	reqs := []struct {
+		name, query string
+		vars        map[string]interface{}
+		ghost       bool // uses something only the refused load declares: must be rejected
+		field       int
+	}{
+		{"declared-object-literal", "{ f%d_0(x: {req: 2}) }", nil, false, bi},
+		{"declared-object-variable", "query Q($v: I) { f%d_0(x: $v) }", map[string]interface{}{"v": map[string]interface{}{"req": 2.0}}, false, bi},
+		{"ghost-field-literal", "{ f%d_0(x: {req: 2, extra: 3}) }", nil, true, bi},
+		{"ghost-field-variable", "query Q($v: I) { f%d_0(x: $v) }", map[string]interface{}{"v": map[string]interface{}{"req": 2.0, "deep": false}}, true, bi},
+		{"ghost-field-variable-default", "query Q($v: I = {req: 2, extra: 1}) { f%d_0(x: $v) }", nil, true, bi},
+		{"ghost-enum-literal", "{ f%d_0(x: PURPLE) }", nil, true, ei},
+		{"ghost-enum-variable", "query Q($v: E) { f%d_0(x: $v) }", map[string]interface{}{"v": "PURPLE"}, true, ei},
+		{"ghost-enum-variable-default", "query Q($v: E = PURPLE) { f%d_0(x: $v) }", nil, true, ei},
+		{"ghost-enum-in-object", "{ f%d_0(x: {req: 2, en: PURPLE}) }", nil, true, bi},
+		{"declared-enum-literal", "{ f%d_0(x: GREEN) }", nil, false, ei},
+	}
+	var idx int64
+	for _, st := range strats {
+		for _, rf := range refused {
+			for _, warm := range []bool{false, true} {
+				for _, rq := range reqs {
+					idx++
+					if !c.OwnsIdx(1<<41 + idx) {
+						continue
+					}
+					c.Eval()
+					c.Nontrivial()
+					root, rec := c04Root(st, sdl)
+					query := fmt.Sprintf(rq.query, rq.field)
+					var res map[string]interface{}
+					var lerr error
+					pi := core.Safe(func() {
+						if warm {
+							_ = root.ResolveString(fmt.Sprintf("{ f%d_0(x: {req: 1, def: \"s\", en: RED}) }", bi), "", nil)
+						}
+						lerr = root.ParseString(rf.sdl)
+						rec.invoked, rec.args = 0, nil
+						res = root.ResolveString(query, "", deepCopyVars(rq.vars))
+					})
+					cs := c04Case{Type: "after the refused load: " + strings.TrimSpace(rf.sdl), Value: rq.name, Delivery: rq.name + map[bool]string{true: "+warm-root", false: "+cold-root"}[warm], Strategy: st.String(), Query: query, Vars: fmt.Sprintf("%#v", rq.vars)}
+					attrs := map[string]string{"base": c04Bases[rq.field], "wrapper": "refused-growth:" + rf.name, "value": rq.name, "delivery": map[bool]string{true: "warm-root", false: "cold-root"}[warm]}
+					switch {
+					case pi != nil:
+						cs.Diff = pi.Value
+						c.Violation("panic", map[string]string{"site": pi.Site, "class": pi.Class}, cs)
+						continue
+					case lerr == nil:
+						panic(core.EngineError{Msg: "C04 refused growth: the load was accepted: " + rf.sdl})
+					}
+					cs.Invoked, cs.Errors = rec.invoked > 0, res["errors"]
+					got := rec.args["x"]
+					cs.Got = fmt.Sprintf("%#v", got)
+					_, hasErr := res["errors"]
+					switch {
+					case rq.ghost && rec.invoked > 0:
+						cs.Diff = "a value / field only the refused load declares reached the resolver"
+						c.Outcome("uncoercible-invoked")
+						c.Violation("resolver-invoked", attrs, cs)
+					case rq.ghost && !hasErr:
+						cs.Diff = "a value / field only the refused load declares gave no error"
+						c.Violation("missing-error", attrs, cs)
+					case rq.ghost:
+						c.Outcome("rejected-as-required")
+					case rec.invoked == 0:
+						c.Outcome("over-rejected(allowed)")
+					case rq.field == bi:
+						m, _ := got.(map[string]interface{})
+						n, isInt := asInt64(m["req"])
+						_, hasExtra := m["extra"]
+						_, hasDeep := m["deep"]
+						if m == nil || !isInt || n != 2 || m["def"] != "dflt" || hasExtra || hasDeep {
+							cs.Diff = "the input object is not {req: 2, def: \"dflt\"}: a default of the refused load was filled in, or a declared one was not"
+							c.Outcome("nonconforming")
+							c.Violation("arg-nonconforming", attrs, cs)
+						} else {
+							c.Outcome("conforming")
+						}
+					default:
+						if fmt.Sprint(got) != "GREEN" {
+							cs.Diff = "the enum value is not GREEN"
+							c.Outcome("nonconforming")
+							c.Violation("arg-nonconforming", attrs, cs)
+						} else {
+							c.Outcome("conforming")
+						}
+					}
+				}
+			}
+		}
+	}
 }
